@@ -18,6 +18,25 @@ COUNTER_TRUST = [
 ]
 
 PROPS = {
+    "C02": {
+        "modules": ["SlocModel.Props.C02"],
+        "required_theorems": [
+            "blank_is_blank", "in_comment_is_comment", "plain_is_code", "line_comment_is_comment",
+            "code_then_line_comment_is_code", "directive_needs_comment", "ignore_file_needs_comment", "ignore_next_step",
+            "ignore_next_exact", "track_state_commutes", "ignore_block_step", "ignore_start_end", "ignore_file_iff",
+            "builtin_markers_nonempty", "only_lua_overlaps", "only_python_quote_markers",
+            "c02_quote_in_block_fails", "c02_opener_in_line_comment_fails", "c02_multi_line_triple_quote_fails",
+            "c02_triple_quote_in_string_fails",
+        ],
+        "technique": "Lean 4 theorems on the classification ladder and ignore directives (all syntaxes, all lines) + kernel-checked refutation witnesses + grammar-labelled differential correspondence",
+        "level_text": "Tier A: machine-checked theorems, for every comment syntax and every line, that the classification ladder of process_line gives blank/comment/code exactly under the stated lexical conditions and that ignore-next/ignore-start/ignore-end/ignore-file act on exactly the lines the property names (whole-line line comments only). Tier B (token level): the unrestricted statement is refuted in Lean by four decide-checked witnesses, each reproduced on the real counter by the harness and listed in known_findings.json; the hazard-free grammar is covered by an exhaustive enumeration of all atom sequences up to length 3 (quick) / 4 (thorough) for each of the 20 built-in languages plus sampled longer programs, every line's class known by construction. The enumeration is a test, not a theorem.",
+        "level_note": "Trusted: Lean kernel + standard axioms; the grammar generator's labels; std text primitives modelled. The token-level half is validated by exhaustive small-scope testing, not proved.",
+        "trivial_tag_prefixes": [],
+        "rule": "all sequences of 1..3 (quick) / 1..4 (thorough) atoms from a per-language alphabet of 9-17 lexical atoms (blank, code, string holding every marker + an escaped quote + a directive, line comment, code+line comment, 1- and 2-line block comments, nested block, block holding a line marker, Lua long brackets of level 0 and 2, Ruby =begin/=end, triple-quote block, ignore-next 1/2, ignore-start, ignore-end), then sampled programs of 1-9 pieces with random indentation (incl. NBSP), CRLF, escapes, raw strings, nesting depth <= 3, long-bracket level <= 3, unicode; hazard-free stream, one-hazard streams, mixed stream, directive-in-code and ignore-file streams; truth known by construction; distinct = distinct request lines",
+        "explanation": "ladder/directive theorems + refutation witnesses in Lean; per-line differential comparison of the Lean model with SlocCounter on grammar programs; the property predicate (implementation classes = labels) evaluated on the real code, failures attributed to known findings by structural repair",
+        "trusted_base": COMMON_TRUST + COUNTER_TRUST + ["the grammar's labels (harness/src/grammar.rs) are the ground truth"],
+        "assumptions": ["per-line classes of the implementation are obtained by counting every line-boundary prefix"],
+    },
     "C03": {
         "modules": ["SlocModel.Props.C03"],
         "required_theorems": [
@@ -32,6 +51,19 @@ PROPS = {
         "explanation": "count_total/append_mono/index-bound theorems about the Lean counter model + per-line differential comparison of the model with the three real entry points + direct predicates (no panic, total = physical lines, sum, entry points agree, repeated call agrees, append monotone) evaluated on the real code",
         "trusted_base": COMMON_TRUST + COUNTER_TRUST,
         "assumptions": ["String::from_utf8_lossy is applied by the harness before text reaches the model", "per-line classes of the implementation are obtained by counting every line-boundary prefix (valid because of append monotonicity, itself checked)"],
+    },
+    "C04": {
+        "modules": ["SlocModel.Props.C04"],
+        "required_theorems": ["run_append", "classifyLines_eq_run", "insert_state_neutral", "blank_insert_invariant",
+                              "comment_insert_invariant_partial", "c04_opener_in_comment_fails"],
+        "technique": "Lean 4 theorems: line insertion/deletion as a fold-state invariant (all syntaxes, files, positions) + refutation witness + relational differential correspondence",
+        "level_text": "Machine-checked: for every syntax, every file without an ignore-file directive and every position whose state is outside block comments and ignore regions, inserting or deleting a whitespace-only line (full statement) or a whole-line line comment on which no block start is found (partial: the unrestricted statement is refuted by a decide-checked witness, reproduced on the real counter and listed as a known finding) leaves every other line's class and the code count unchanged. The model is compared with the real counter on 12k generated and 150 real-source insertions per quick run (400k / 5k thorough).",
+        "level_note": "Trusted: Lean kernel + standard axioms; harness; std text primitives modelled. Insertion points are chosen by probing the real tool with a code line.",
+        "trivial_tag_prefixes": ["grammar/no-free-point", "repo-src/no-free-point"],
+        "rule": "base file: hazard-free grammar program of 1-8 pieces in a random built-in language, or a real .rs file of /repo/src (<= 400 lines) with Rust syntax; insertion point: random, accepted when a probe code line inserted there is classified code by the real tool and changes no other line; inserted line: whitespace-only (incl. NBSP, ideographic space) or indentation + a line prefix of the language + a body from a corpus of quotes, escapes, closers, unicode, raw-string and triple-quote fragments, 1 in 5 with a block opener; distinct = distinct request lines; trivial = no free insertion point found",
+        "explanation": "insert_state_neutral + blank/comment corollaries in Lean; driver op `insert` compared with the real counter's per-line classes before and after; predicate: code count and all other classes unchanged",
+        "trusted_base": COMMON_TRUST + COUNTER_TRUST,
+        "assumptions": ["files without an ignore-file directive (inserting a line shifts the 10-line scan window)"],
     },
     "C05": {
         "modules": ["SlocModel.Props.C05"],
